@@ -43,7 +43,18 @@ TraceInit ==
     /\ ret = RNil /\ out = <<>> /\ hist = <<>>
     /\ \A i \in 1..NCounters : TLCSet(i, 0)
 
-DoBegin(e) == FreshState(e.cap) /\ poisoned' = FALSE /\ seen' = {} /\ Bump(1)
+(* Begin: capacity, initial contents (appended before anybody subscribed) and the subscribers that exist from the start *)
+DoBegin(e) ==
+    /\ alive' = TRUE /\ vals' = e.init /\ cap' = e.cap /\ fresh' = Len(e.init) + 1
+    /\ txn' = NoTxn /\ chan' = <<>>
+    /\ subs' = 1..e.presubs
+    /\ sflav' = [s \in SubIds |-> IF s = 2 THEN "batched" ELSE "plain"]
+    /\ snext' = [s \in SubIds |-> 0] /\ srest' = [s \in SubIds |-> <<>>]
+    /\ replica' = [s \in SubIds |-> e.init] /\ gmsgs' = [s \in SubIds |-> <<>>]
+    /\ cands' = [s \in SubIds |-> {<<0, FALSE>>}]
+    /\ armed' = [s \in SubIds |-> FALSE] /\ owed' = {}
+    /\ ret' = RNil /\ out' = <<>> /\ hist' = <<>>
+    /\ poisoned' = FALSE /\ seen' = {} /\ Bump(1)
 
 (* vector-side call named by the event *)
 VecAction(e) ==
